@@ -1,3 +1,115 @@
-(* C28 -- placeholder while the proofs are being written *)
+(* C28 -- Upserts follow their specification.
+   `upsert` / `upsert_single` (Model/Upsert.v) model UserActions.BulkAddOrUpdateRecord / AddOrUpdateRecord the way the
+   code works: argument checks, one pass over the input rows that looks each row up in the PRE-CALL table and
+   accumulates the arguments of one BulkAddRecord and one BulkUpdateRecord, id filling, trimming of unchanged
+   update entries, placeholders of recordIds filled afterwards.  `ref_upsert` / `ref_single` are the reference:
+   each input row decides on the pre-call table what it asks for (`ref_outcome`), the rows are carried out one after
+   the other (`ref_run`), the four argument errors are stated on the arguments (`arg_error`).
+   The model is compared with the running engine on every run (harness/props/c28.py).
+   Statements only; proofs are in Proofs/Upsert_proofs.v. *)
 From Coq Require Import ZArith List Bool.
-Require Import Grist.Model.Upsert.
+Import ListNotations.
+Require Import Grist.Model.Upsert Grist.Proofs.Upsert_proofs.
+Open Scope Z_scope.
+
+(* The property at full strength: for all tables, arguments, options and conversion functions the call behaves
+   like the reference (resulting table and returned ids, or the same rejection). *)
+Definition C28_statement : Prop :=
+  forall e t require col_values o, upsert e t require col_values o = ref_upsert e t require col_values o.
+
+(* The unchanged code violates it in two situations; the faithful model does too. *)
+Definition ex_schema :=
+  [{| c_id := 1; c_data := true; c_default := VText [] |}; {| c_id := 3; c_data := true; c_default := VText [] |}].
+Definition ex_env := {| e_schema := ex_schema; e_conv := fun _ v => v; e_key := fun _ v => Some v |}.
+Definition ex_default := {| o_on_many := OnFirst; o_update := true; o_add := true; o_allow_empty := false |}.
+Definition ex_all := {| o_on_many := OnAll; o_update := true; o_add := true; o_allow_empty := true |}.
+Definition ex_table1 : table := [(1, [(1, VText [97]); (3, VText [99])])].
+
+(* (1) Two input rows update record 1 (empty require); the last one writes the value the record already has
+   ("c"), the first one writes "x".  The reference leaves "c"; the code trims the last entry as unchanged and
+   the earlier one wins: the record ends with "x". *)
+Theorem C28_refuted_stale_update :
+  upsert ex_env ex_table1 [] [(3, [VText [120]; VText [99]])] ex_all
+    = Ok ([(1, [(1, VText [97]); (3, VText [120])])],
+          {| r_record_ids := [[1]; [1]]; r_add_ids := []; r_update_ids := [[1]; [1]] |})
+  /\ ref_upsert ex_env ex_table1 [] [(3, [VText [120]; VText [99]])] ex_all
+    = Ok (ex_table1, {| r_record_ids := [[1]; [1]]; r_add_ids := []; r_update_ids := [[1]; [1]] |}).
+Proof. split; vm_compute; reflexivity. Qed.
+
+(* (2) Two input rows each ask for a new record with row id 5: the reference cannot add the second one and
+   rejects; the code reports two added records [5; 5] and the table holds one.  A required row id 0 is reported
+   as added and nothing is added. *)
+Theorem C28_refuted_new_id :
+  upsert ex_env [] [(0, [VInt 5; VInt 5]); (1, [VText [120]; VText [121]])] [] ex_default
+    = Ok ([(5, [(1, VText [121]); (3, VText [])])],
+          {| r_record_ids := [[5]; [5]]; r_add_ids := [5; 5]; r_update_ids := [] |})
+  /\ ref_upsert ex_env [] [(0, [VInt 5; VInt 5]); (1, [VText [120]; VText [121]])] [] ex_default = Err EEnv
+  /\ upsert ex_env ex_table1 [(0, [VInt 0])] [(3, [VText [112]])] ex_default
+    = Ok (ex_table1, {| r_record_ids := [[0]]; r_add_ids := [0]; r_update_ids := [] |})
+  /\ ref_upsert ex_env ex_table1 [(0, [VInt 0])] [(3, [VText [112]])] ex_default = Err EEnv.
+Proof. repeat split; vm_compute; reflexivity. Qed.
+
+Theorem C28_refuted : ~ C28_statement.
+Proof.
+  intros H. specialize (H ex_env ex_table1 [] [(3, [VText [120]; VText [99]])] ex_all).
+  destruct C28_refuted_stale_update as [E1 E2]. rewrite E1, E2 in H. discriminate H.
+Qed.
+
+(* Everywhere else the property holds.  The two hypotheses are stated on the reference's own per-row decisions:
+   no_stale_update: whenever some input row really changes a record, the last input row updating that record
+                    changes it too (in particular: no record is updated by two input rows);
+   new_ids_clean:   the ids the new records get are positive and pairwise different. *)
+Theorem upsert_refines_reference_partial : forall e t require col_values o,
+  no_stale_update e t require col_values o = true ->
+  new_ids_clean e t require col_values o = true ->
+  upsert e t require col_values o = ref_upsert e t require col_values o.
+Proof. exact upsert_eq. Qed.
+
+(* the first hypothesis holds when no record is updated by two input rows *)
+Theorem no_stale_when_updates_distinct : forall e t (us : list upd),
+  NoDup (map fst us) -> stale_free e t us = true.
+Proof. exact stale_free_distinct. Qed.
+
+(* Each argument error (bad on_many, empty require without allow_empty_require, mismatched lengths, duplicate
+   require keys) rejects, and the table is unchanged -- for ALL inputs; and every rejection that is not raised
+   by the record-level machinery (EEnv) is one of these. *)
+Theorem upsert_arg_errors_reject : forall e t require col_values o x,
+  arg_error require col_values o = Some x ->
+  upsert e t require col_values o = Err x /\ table_after t (upsert e t require col_values o) = t.
+Proof. exact arg_error_rejects. Qed.
+
+Theorem upsert_rejections_are_argument_errors : forall e t require col_values o x,
+  upsert e t require col_values o = Err x -> x <> EEnv -> arg_error require col_values o = Some x.
+Proof. exact upsert_err_arg. Qed.
+
+Theorem upsert_any_rejection_leaves_table : forall e t require col_values o x,
+  upsert e t require col_values o = Err x -> table_after t (upsert e t require col_values o) = t.
+Proof. exact err_unchanged. Qed.
+
+(* AddOrUpdateRecord: with one input row the first hypothesis always holds. *)
+Theorem upsert_single_refines_reference_partial : forall e t require col_values o,
+  new_ids_clean e t (single_kv require) (single_kv col_values) o = true ->
+  upsert_single e t require col_values o = ref_single e t require col_values o.
+Proof. exact single_eq. Qed.
+
+(* Non-vacuity: three input rows on a table with a duplicate key: "a" matches records 1 and 2 (on_many = all),
+   "z" matches nothing and is added as record 5, "b" matches record 4; both hypotheses hold. *)
+Definition ex_table2 : table :=
+  [(1, [(1, VText [97]); (3, VText [99])]); (2, [(1, VText [97]); (3, VText [100])]); (4, [(1, VText [98]); (3, VText [99])])].
+Example C28_nonvacuous :
+  let require := [(1, [VText [97]; VText [122]; VText [98]])] in
+  let col_values := [(3, [VText [120]; VText [121]; VText [119]])] in
+  no_stale_update ex_env ex_table2 require col_values ex_all = true /\
+  new_ids_clean ex_env ex_table2 require col_values ex_all = true /\
+  upsert ex_env ex_table2 require col_values ex_all
+  = Ok ([(1, [(1, VText [97]); (3, VText [120])]); (2, [(1, VText [97]); (3, VText [120])]);
+         (4, [(1, VText [98]); (3, VText [119])]); (5, [(1, VText [122]); (3, VText [121])])],
+        {| r_record_ids := [[1; 2]; [5]; [4]]; r_add_ids := [5]; r_update_ids := [[1; 2]; [4]] |}).
+Proof. cbv zeta. repeat split; vm_compute; reflexivity. Qed.
+
+Example C28_arg_errors_nonvacuous :
+  arg_error [(1, [VText [97]; VText [97]])] [] ex_default = Some EUnique /\
+  arg_error [(1, [VText [97]])] [(3, [VText [97]; VText [98]])] ex_default = Some ELengths /\
+  arg_error [] [(3, [VText [97]])] ex_default = Some EEmptyRequire /\
+  arg_error [] [] {| o_on_many := OnBad; o_update := true; o_add := true; o_allow_empty := true |} = Some EOnMany.
+Proof. repeat split; vm_compute; reflexivity. Qed.
